@@ -334,6 +334,36 @@ pub fn generate_c15(tier: &str, rng: &mut Prng) -> Vec<Case> {
             let seed = if i == 0 { vec![0u8; 32] } else { seed_for(rng, 15) };
             ops.push(Case::new(format!("keygen_digest {n} {}", hex(&seed))));
         }
+        // Falcon-512 seeds whose accepted (f, g) has a coefficient of magnitude 16..31 — inside Falcon-512's range, outside
+        // Falcon-1024's: a bound that leaks from one variant's key generation into the other's changes exactly these keys
+        if n == 512 {
+            use rand::SeedableRng;
+            let mut found = 0;
+            let mut i = 0u64;
+            while found < (if thorough { 6 } else { 2 }) && i < 5000 {
+                i += 1;
+                let seed = crate::seeds::special_seed(1_000_000 + i);
+                let mut r = rand::rngs::StdRng::from_seed(seed);
+                // replay the candidate stream with the cheap guards; the first candidate that passes them is (almost always) the key
+                for _ in 0..200 {
+                    let f = vh::gen_poly(n, &mut r);
+                    let g = vh::gen_poly(n, &mut r);
+                    let m = f.iter().chain(g.iter()).map(|c| c.abs()).max().unwrap_or(0);
+                    if m >= 32 {
+                        continue;
+                    }
+                    let fq: Vec<u32> = f.iter().map(|&x| (x as i64).rem_euclid(12289) as u32).collect();
+                    if vh::felt_fft(&fq).iter().any(|&v| v == 0) || vh::gram_schmidt_norm_squared(&f, &g) > 1.3689 * 12289.0 {
+                        continue;
+                    }
+                    if m >= 16 {
+                        ops.push(Case::new(format!("keygen_digest {n} {}", hex(&seed))));
+                        found += 1;
+                    }
+                    break;
+                }
+            }
+        }
         // seeds made of extreme byte values (arithmetic on seed bytes that saturates or wraps loses bits exactly there)
         let extremes: Vec<Vec<u8>> = if thorough {
             vec![vec![0xffu8; 32], vec![0x80u8; 32], vec![0x7fu8; 32], vec![0xf0u8; 32], vec![0x0fu8; 32]]
